@@ -61,15 +61,15 @@ type dBlock struct {
 type dBody struct{ Items []*dItem }
 
 type c18Gen struct {
-	r           *rand.Rand
-	sc          *gen.Scope
-	labelCounts map[string]int
-	iters       []string // iterator names in scope (outermost first)
-	itersObj    []bool   // whether the iterator's values are objects {id, name}
-	nGroups     int
-	bigGroup    bool
-	nested      bool
-	marked      bool
+	r            *rand.Rand
+	sc           *gen.Scope
+	labelCounts  map[string]int
+	iters        []string // iterator names in scope (outermost first)
+	itersObj     []bool   // whether the iterator's values are objects {id, name}
+	nGroups      int
+	bigGroup     bool
+	nested       bool
+	marked       bool
 	unknownElems bool
 }
 
